@@ -573,22 +573,103 @@ func (g *gen) ropts(invalidPct int) []ROpt {
 var invalidPatterns = []string{"noslash", "", "/k/{}", "/k/{a", "/k/*", "/k/*x", "/k/{a}b", "/k/{a{b}}", "/k/{a/b}", "/k/*{a", "/k/*{}", "/k/*{a}b",
 	"*{x}.com/a", ".a.com/b", "-a.com/b", "{a.b}.com/x", "a.{}.com/"}
 
+const (
+	alnum     = "abcdefghijklmnopqrstuvwxyzABCDEFGHIJKLMNOPQRSTUVWXYZ0123456789"
+	letters   = "abcdefghijklmnopqrstuvwxyzABCDEFGHIJKLMNOPQRSTUVWXYZ"
+	hostInner = alnum + "_-"
+	nameChars = alnum + "_-"
+	pathName  = alnum + "_-.:~,;=@"         // bytes parseRoute allows inside a {name} of the path
+	segChars  = alnum + "-._~!$&'()+,;=:@" // legal path bytes that need no escaping in a request target
+)
+
+func (g *gen) str(first, inner, last string, n int) string {
+	b := make([]byte, n)
+	for i := range b {
+		switch {
+		case i == 0:
+			b[i] = first[g.rnd.Intn(len(first))]
+		case i == n-1:
+			b[i] = last[g.rnd.Intn(len(last))]
+		default:
+			b[i] = inner[g.rnd.Intn(len(inner))]
+		}
+	}
+	return string(b)
+}
+func (g *gen) length(long int) int {
+	if g.rnd.Pct(6) {
+		return g.rnd.Range(long/2, long)
+	}
+	return g.rnd.Range(1, 7)
+}
+
+// label: a hostname label as parseRoute accepts it - letters of both cases, digits, '_', '-' (not first, not last), <= 63 bytes
+func (g *gen) label() string { return g.str(letters, hostInner, alnum, g.length(63)) }
+
+// name: a wildcard name; inside the hostname '.' is the delimiter, inside the path more bytes are legal
+func (g *gen) name(inHost bool) string {
+	if inHost {
+		return g.str(nameChars, nameChars, nameChars, g.length(40))
+	}
+	return g.str(pathName, pathName, pathName, g.length(40))
+}
+
+// seg: a static path segment (starts with a letter: never "." or "..")
+func (g *gen) seg() string { return g.str(letters, segChars, segChars, g.length(30)) }
+
 func (g *gen) pattern(key int, invalidPct int) Pat {
 	if g.rnd.Pct(invalidPct) {
 		return Pat{Pattern: hx.Pick(g.rnd, invalidPatterns), Path: "/zz/invalid/pattern"}
 	}
 	var pat, host, rhost strings.Builder
-	if g.rnd.Pct(30) {
-		switch g.rnd.Intn(3) {
-		case 0:
-			fmt.Fprintf(&host, "h%d.example.com", key)
-			fmt.Fprintf(&rhost, "h%d.example.com", key)
-		case 1:
-			fmt.Fprintf(&host, "{sub}.h%d.com", key)
-			fmt.Fprintf(&rhost, "v.h%d.com", key)
-		default:
-			fmt.Fprintf(&host, "a.{b}.h%d.org", key)
-			fmt.Fprintf(&rhost, "a.w.h%d.org", key)
+	if g.rnd.Pct(40) {
+		// Hosts of different keys must not conflict in the tree: the first label of key k is static and starts with
+		// its own letter ('A'+k, either case), except that key 0 may start with a wildcard label.
+		nl := g.rnd.Range(2, 4)
+		long := false
+		lbl := func() string {
+			l := g.label()
+			if len(l) > 7 {
+				if long { // at most one long label: the whole hostname stays under 255 bytes
+					l = l[:5] + "z"
+				}
+				long = true
+			}
+			return l
+		}
+		for i := 0; i < nl; i++ {
+			if i > 0 {
+				host.WriteByte('.')
+				rhost.WriteByte('.')
+			}
+			r := g.rnd.Intn(100)
+			if i == 0 && (key != 0 || r >= 35) {
+				first := string(rune('A' + key))
+				if g.rnd.Bool() {
+					first = strings.ToLower(first)
+				}
+				l := lbl()
+				l = first + l[1:]
+				if len(l) == 1 || (len(l) < 60 && g.rnd.Pct(20)) {
+					l += "9"
+				}
+				host.WriteString(l)
+				rhost.WriteString(l)
+				continue
+			}
+			switch {
+			case r < 25: // a whole-label wildcard
+				fmt.Fprintf(&host, "{%s}", g.name(true))
+				rhost.WriteString("v9")
+			case r < 35: // prefix + wildcard
+				pre := g.str(letters, alnum, alnum, g.rnd.Range(1, 3))
+				fmt.Fprintf(&host, "%s{%s}", pre, g.name(true))
+				rhost.WriteString(pre + "V")
+			default:
+				l := lbl()
+				host.WriteString(l)
+				rhost.WriteString(l)
+			}
 		}
 	}
 	var path strings.Builder
@@ -599,28 +680,30 @@ func (g *gen) pattern(key int, invalidPct int) Pat {
 	for i := 0; i < n && !catchAll; i++ {
 		switch r := g.rnd.Intn(100); {
 		case r < 40:
-			pat.WriteString("/seg")
-			path.WriteString("/seg")
+			sg := g.seg()
+			pat.WriteString("/" + sg)
+			path.WriteString("/" + sg)
 			lastStatic = true
 		case r < 70:
-			fmt.Fprintf(&pat, "/{p%d}", i)
+			fmt.Fprintf(&pat, "/{%s}", g.name(false))
 			path.WriteString("/val")
 			lastStatic = false
 		case r < 80:
-			fmt.Fprintf(&pat, "/x{p%d}", i)
-			path.WriteString("/xval")
+			pre := g.str(letters, alnum, alnum, g.rnd.Range(1, 3))
+			fmt.Fprintf(&pat, "/%s{%s}", pre, g.name(false))
+			path.WriteString("/" + pre + "val")
 			lastStatic = false
 		case r < 90 && i == n-1:
-			fmt.Fprintf(&pat, "/*{c%d}", i)
+			fmt.Fprintf(&pat, "/*{%s}", g.name(false))
 			path.WriteString("/c/d")
 			catchAll, lastStatic = true, false
 		default:
 			if i == n-1 {
-				fmt.Fprintf(&pat, "/f*{c%d}", i)
+				fmt.Fprintf(&pat, "/f*{%s}", g.name(false))
 				path.WriteString("/fc/d")
 				catchAll, lastStatic = true, false
 			} else {
-				fmt.Fprintf(&pat, "/*{c%d}/end", i) // infix catch-all
+				fmt.Fprintf(&pat, "/*{%s}/end", g.name(false)) // infix catch-all
 				path.WriteString("/c/d/end")
 				lastStatic = true
 			}
@@ -873,6 +956,32 @@ func main() {
 				ropts = append(ropts, ROpt{Kind: ts[i].k, B: ts[i].b})
 			}
 			add(gopts, []Pat{pat}, []Op{{Kind: "create", Via: "VHandle", Key: 0, Handler: true, Opts: ropts}, {Kind: "probe", Key: 0, Probe: 1}, {Kind: "access", Key: 0}}, "exhaustive-ts")
+		}
+	}
+	// accessor identities on a fixed list of patterns using the whole alphabet parseRoute accepts: upper / lower case,
+	// digits, '-', '_' in hostname labels and wildcard names, less common legal path bytes, long labels and names;
+	// each is created with Handle, read, replaced with Update, read again, and reached through Lookup
+	long63 := strings.Repeat("Ab3-_", 12) + "Zz9"
+	long40 := strings.Repeat("N_a-9", 8)
+	for _, pp := range []Pat{
+		{Pattern: "API.Example.com/users/{id}", Host: "API.Example.com", Path: "/users/7"},
+		{Pattern: "{Tenant}.example.com/", Host: "acme.example.com", Path: "/"},
+		{Pattern: "a-b_C.D0-9_x.Org/A-b_c/{X-y_Z.0}", Host: "a-b_C.D0-9_x.Org", Path: "/A-b_c/v"},
+		{Pattern: "x{SubDomain_9-a}.H.{TLD}/p/*{Rest.Of-It}", Host: "xq.H.io", Path: "/p/a/b"},
+		{Pattern: long63 + ".Example.COM/" + long40 + "/{" + long40 + "}", Host: long63 + ".Example.COM", Path: "/" + long40 + "/v"},
+		{Pattern: "/~user/!$&'()+,;=:@/{a:b}/c.d", Path: "/~user/!$&'()+,;=:@/v/c.d"},
+		{Pattern: "/UPPER/lower/MiXeD/{ID}/*{Path}/End", Path: "/UPPER/lower/MiXeD/1/x/y/End"},
+		{Pattern: "_under.score-dash.X9/{a}/{B}/{c_D}", Host: "_under.score-dash.X9", Path: "/1/2/3"},
+		{Pattern: "9lives.Cat/x", Host: "9lives.Cat", Path: "/x"},
+	} {
+		pp.Valid = true
+		for _, via := range []string{"VHandle", "VNewRoute"} {
+			add([]GOpt{{Kind: "mw", Ms: []bool{true}}}, []Pat{pp}, []Op{
+				{Kind: "create", Via: via, Key: 0, Handler: true, Opts: []ROpt{{Kind: "annot", KeyK: "hash", KeyID: 1, Val: 4}}},
+				{Kind: "access", Key: 0}, {Kind: "probe", Key: 0, Probe: 0}, {Kind: "annotget", Key: 0, AKey: 1},
+				{Kind: "create", Via: "VUpdate", Key: 0, Handler: true, Opts: []ROpt{{Kind: "clientip", Res: 6}}},
+				{Kind: "access", Key: 0}, {Kind: "probe", Key: 0, Probe: 0}, {Kind: "annotget", Key: 0, AKey: 1},
+				{Kind: "lookup", Key: 0, Entry: "ERouter"}, {Kind: "create", Via: "VOnly", Key: 0, Handler: true}}, "accessor-alphabet")
 		}
 	}
 	// exhaustive: WithMiddlewareFor with EVERY scope value 0..255 x {valid, nil, valid then nil}: the nil check does
